@@ -2,7 +2,9 @@
   Proofs for C13 (replies are classified by their status words; bad replies cannot pass or crash).
 -/
 import PycommModel.Reply
+import PycommProofs.RPBasic
 namespace Pycomm.Reply
+open Pycomm.RP
 
 /-- byte i of a reply -/
 def byteAt (raw : Bytes) (i : Nat) : Nat := (raw.getD i 0).toNat
@@ -16,24 +18,76 @@ def StatusWordsOk (tr : Transport) (raw : Bytes) : Prop :=
    (byteAt raw (tr.off + 2) = 6 ∧ tr = .connected ∧
     ∃ svc, serviceFromReply [UInt8.ofNat (byteAt raw tr.off)] = .ok (some svc) ∧ isMultiPacket (some svc) = true))
 
+/-- "some request service is answered by this reply byte and it is a multi-packet one", given the
+    outcome of the service lookup -/
+theorem multi_iff (x : Bytes) (svc : Option Bytes) (hs : serviceFromReply x = .ok svc) :
+    (∃ s, serviceFromReply x = .ok (some s) ∧ isMultiPacket (some s) = true) ↔ isMultiPacket svc = true := by
+  rw [hs]
+  cases svc with
+  | none => simp [isMultiPacket]
+  | some b =>
+    constructor
+    · rintro ⟨s, h1, h2⟩
+      cases h1; exact h2
+    · intro h; exact ⟨b, rfl, h⟩
+
+/-- `validCip` on a fully parsed reply -/
+theorem validCip_record (tr : Transport) (cmd : Bytes) (cs : Int) (svc : Option Bytes) (st : Nat) (d : Bytes) :
+    validCip tr { err := none, command := some cmd, commandStatus := some cs, service := svc,
+                  serviceStatus := some st, data := some d } = true ↔
+    cs = 0 ∧ (st = 0 ∨ (st = 6 ∧ tr = .connected ∧ isMultiPacket svc = true)) := by
+  cases tr <;> simp [validCip, validBase]
+
+/-- a reply whose parse recorded an error is not valid -/
+theorem validCip_err (tr : Transport) (p : Parsed) (e : Err) (h : p.err = some e) : validCip tr p = false := by
+  simp [validCip, validBase, h]
+
+/-- `errorCip` (with valid = false) on a fully parsed reply: the encapsulation status decides first, then
+    the CIP general status -/
+theorem errorCip_record (tr : Transport) (raw cmd : Bytes) (cs : Int) (svc : Option Bytes) (st : Nat) (d : Bytes) :
+    errorCip (some raw) tr
+        { err := none, command := some cmd, commandStatus := some cs, service := svc,
+          serviceStatus := some st, data := some d } false =
+      if cs ≠ 0 then (extendedText raw tr cs).map fun t => some (.text t)
+      else if st ≠ 0 then (extendedText raw tr (st : Nat)).map fun t => some (.text t)
+      else .ok (some .unknownError) := by
+  simp [errorCip]
+
 -- PROPERTY THEOREMS
 
 /-- A reply counts as success EXACTLY when its encapsulation status is 0 and its CIP general status is 0
     (or 6 for a connected reply to one of the services that legitimately continue), for every byte string. -/
 theorem valid_iff (tr : Transport) (raw : Bytes) :
     validCip tr (parseCip (some raw) tr) = true ↔ StatusWordsOk tr raw := by
-  sorry
+  unfold StatusWordsOk byteAt
+  by_cases hg : tr.off + 3 ≤ raw.length ∧ 128 ≤ (raw.getD tr.off 0).toNat
+  · obtain ⟨h1, h2⟩ := hg
+    obtain ⟨svc, hs, hp⟩ := parseCip_good tr raw h1 h2
+    have ho := off_ge tr
+    rw [hp, validCip_record, multi_iff _ _ hs, encStatus_zero_iff raw (by omega)]
+    constructor
+    · rintro ⟨a, b⟩; exact ⟨h1, a, h2, b⟩
+    · rintro ⟨_, a, _, b⟩; exact ⟨a, b⟩
+  · have he := parseCip_bad tr raw hg
+    constructor
+    · intro h
+      rw [validCip_err tr _ _ he] at h; cases h
+    · rintro ⟨a, _, b, _⟩; exact absurd ⟨a, b⟩ hg
 
 /-- a reply too short to contain its status words is never reported as success -/
 theorem short_never_valid (tr : Transport) (raw : Bytes) (h : raw.length < tr.off + 3) :
     validCip tr (parseCip (some raw) tr) = false := by
-  sorry
+  apply validCip_err tr _ .parseFailed
+  apply parseCip_bad
+  omega
 
 /-- no reply at all is a failure with the text "No response data received" -/
 theorem none_never_valid (tr : Transport) :
     validCip tr (parseCip none tr) = false ∧
     errorCip none tr (parseCip none tr) false = .ok (some .noResponse) := by
-  sorry
+  constructor
+  · exact validCip_err tr _ .noResponse rfl
+  · rfl
 
 /-- every invalid reply carries an error (or the error accessor raises a library exception for a reply cut
     inside its status words); the error is never absent -/
@@ -42,16 +96,46 @@ theorem invalid_has_error (tr : Transport) (raw : Option Bytes) (valid : Bool)
     (∃ e, errorCip raw tr (parseCip raw tr) valid = .ok (some e)) ∨
     errorCip raw tr (parseCip raw tr) valid = .error .bufferEmpty ∨
     errorCip raw tr (parseCip raw tr) valid = .error .data := by
-  sorry
+  subst h
+  cases raw with
+  | none => exact .inl ⟨_, rfl⟩
+  | some raw =>
+    by_cases hg : tr.off + 3 ≤ raw.length ∧ 128 ≤ (raw.getD tr.off 0).toNat
+    · obtain ⟨svc, _, hp⟩ := parseCip_good tr raw hg.1 hg.2
+      rw [hp, errorCip_record]
+      have key : ∀ s : Int,
+          (∃ e, (extendedText raw tr s).map (fun t => some (Err.text t)) = .ok (some e)) ∨
+          (extendedText raw tr s).map (fun t => some (Err.text t)) = .error .bufferEmpty ∨
+          (extendedText raw tr s).map (fun t => some (Err.text t)) = .error .data := by
+        intro s
+        rcases extendedText_cases raw tr s with ⟨t, ht, _⟩ | ⟨e, he, hc⟩
+        · rw [ht]; exact .inl ⟨_, rfl⟩
+        · rw [he]; rcases hc with rfl | rfl
+          · exact .inr (.inl rfl)
+          · exact .inr (.inr rfl)
+      split
+      · exact key _
+      · split
+        · exact key _
+        · exact .inl ⟨_, rfl⟩
+    · have he := parseCip_bad tr raw hg
+      left
+      exact ⟨.parseFailed, by simp [errorCip, he]⟩
 
 /-- a valid reply has no error -/
 theorem valid_has_no_error (tr : Transport) (raw : Option Bytes) (h : validCip tr (parseCip raw tr) = true) :
     errorCip raw tr (parseCip raw tr) true = .ok none := by
-  sorry
+  have _ := h
+  simp [errorCip]
 
 /-- error texts are never empty -/
 theorem status_text_nonempty (i : Int) : serviceStatusTextI i ≠ [] := by
-  sorry
+  unfold serviceStatusTextI
+  split
+  · split
+    · next t ht => exact serviceStatus_texts_nonempty _ (lookupNat_mem _ _ _ ht)
+    · exact unknown_nonempty _ _
+  · exact unknown_nonempty _ _
 
 /-- for a CIP error status (encapsulation status 0, well-formed service fields, general status s ≠ 0 that is
     not a legitimate partial transfer) the error text starts with the text of that status — the known text, or
@@ -63,22 +147,56 @@ theorem error_names_status (tr : Transport) (raw : Bytes)
     (∃ t, errorCip (some raw) tr (parseCip (some raw) tr) false = .ok (some (.text t)) ∧
           serviceStatusTextI (byteAt raw (tr.off + 2)) <+: t) ∨
     (∃ e, errorCip (some raw) tr (parseCip (some raw) tr) false = .error e ∧ (e = .bufferEmpty ∨ e = .data)) := by
-  sorry
+  have _ := hinv
+  unfold byteAt at *
+  obtain ⟨svc, _, hp⟩ := parseCip_good tr raw (by omega) hsvc
+  have ho := off_ge tr
+  have h0 : toSigned 4 (leVal (slice raw 8 12)) = 0 := (encStatus_zero_iff raw (by omega)).2 henc
+  rw [hp, errorCip_record, h0]
+  simp only [ne_eq, not_true_eq_false, if_false, hst, not_false_eq_true, if_true]
+  rcases extendedText_cases raw tr ((raw.getD (tr.off + 2) 0).toNat : Nat) with ⟨t, ht, hpre⟩ | ⟨e, he, hc⟩
+  · rw [ht]; exact .inl ⟨t, rfl, hpre⟩
+  · rw [he]; exact .inr ⟨e, rfl, hc⟩
 
 /-- with a data type, "valid" additionally means the payload decoded -/
 theorem typed_valid_decodes (tr : Transport) (raw : Bytes) (ty : Ty) (v : PyVal) (p : Parsed)
     (h : parseGeneric (some raw) tr (some ty) = (v, p, true)) :
     StatusWordsOk tr raw ∧ ∃ rest, decode ty (raw.drop (tr.off + 4)) = .ok (v, rest) := by
-  sorry
+  simp only [parseGeneric] at h
+  split at h
+  · next hvalid =>
+    have hw := (valid_iff tr raw).1 hvalid
+    refine ⟨hw, ?_⟩
+    obtain ⟨h1, _, h2, _⟩ := hw
+    obtain ⟨svc, _, hp⟩ := parseCip_good tr raw h1 h2
+    rw [hp] at h
+    simp only [Option.getD_some] at h
+    split at h
+    · next v' r hd =>
+      simp only [Prod.mk.injEq] at h
+      obtain ⟨rfl, _⟩ := h
+      exact ⟨r, hd⟩
+    · simp at h
+  · simp at h
 
 /-- without a data type the value is the reply data, unchanged -/
 theorem untyped_value_is_data (tr : Transport) (raw : Bytes) (h : StatusWordsOk tr raw) :
     parseGeneric (some raw) tr none = (.bytes (raw.drop (tr.off + 4)), parseCip (some raw) tr, true) := by
-  sorry
+  have hvalid := (valid_iff tr raw).2 h
+  obtain ⟨h1, _, h2, _⟩ := h
+  obtain ⟨svc, _, hp⟩ := parseCip_good tr raw h1 h2
+  simp only [parseGeneric, hvalid]
+  rw [hp]
 
 /-- RegisterSession: valid exactly when status is 0 and the 4 handle bytes are present -/
 theorem register_valid_iff (raw : Bytes) :
     (parseRegister (some raw)).valid = true ↔ (12 ≤ raw.length ∧ leVal (slice raw 8 12) = 0) := by
-  sorry
+  by_cases hl : 12 ≤ raw.length
+  · have h48 : IntK.udint.size ≤ (slice raw 4 8).length := by rw [slice_length]; simp [IntK.size]; omega
+    simp only [parseRegister, parseBase, dint_slice_ok raw hl, decodeIntNat_ok _ _ h48, RegReply.valid, validBase]
+    simp [hl, encStatus_zero_iff raw hl]
+  · obtain ⟨e, he⟩ := dint_slice_err raw (by omega)
+    simp only [parseRegister, parseBase, he, RegReply.valid, validBase]
+    split <;> simp [hl]
 
 end Pycomm.Reply
